@@ -161,8 +161,10 @@ def run_cache_sequence(ctx, ops, maxmem, drv, label):
     root = ctx.mkdtemp()
     rc = RealCache(maxmem, root)
     oracle = {}
+    broken_tables = False
     try:
-        r = drv.ask(f"new max={maxmem}")
+        if drv:
+            drv.ask(f"new max={maxmem}")
         for i, op in enumerate(ops):
             case = dict(kind=label, max=maxmem, ops=[_op_json(o) for o in ops[:i + 1]])
             try:
@@ -200,11 +202,12 @@ def run_cache_sequence(ctx, ops, maxmem, drv, label):
             # ---- correspondence
             if model is not None and model != impl:
                 ctx.mismatch("Klong.C16.step vs FileCache." + op[0], case, model, impl)
-                return
-            probs = rc.internal_consistency()
+                drv = None       # the tie is broken: go on with the property's own oracle only
+            probs = rc.internal_consistency() if not broken_tables else []
             if probs:
                 ctx.mismatch("FileCache internal tables", case, "consistent", "; ".join(probs))
-                return
+                broken_tables = True
+                drv = None
             ctx.bump("op:" + op[0])
             ctx.bump("out:" + out.split(":")[0])
             if "ev=" in line and line.split("ev=")[1].strip():
@@ -373,6 +376,13 @@ def run_tables(ctx, drv, nseq):
             for step in range(ctx.rng.randrange(1, 5)):
                 n = ctx.rng.choice([0, 1, 2, 3, 5, 20]) if step else ctx.rng.choice([1, 2, 3, 20])
                 idx = [ctx.rng.randrange(-3, 12) for _ in range(n)]
+                mode = ctx.rng.random()
+                if mode < 0.3 and n:
+                    # time-series style append: sorted keys above everything stored, repeats included
+                    base = (max([k for k, _ in model]) + 1) if model else 0
+                    idx = sorted(base + ctx.rng.randrange(0, 4) for _ in range(n))
+                elif mode < 0.45 and n:
+                    idx = sorted(idx)
                 rows = [[ctx.rng.randrange(100), ctx.rng.randrange(100)] for _ in range(n)]
                 if n == 0:
                     continue
